@@ -565,14 +565,139 @@ def translate_headers():
     raise Untranslatable("message_headers::parse: no instantiated body found")
 
 
+
+class MTr:
+    """rx_request::parse / rx_response::parse (start line, then header block) -> M_Msg.mstmt"""
+    def __init__(self, own_flag="valid_", hdr="headers_"):
+        self.own_flag, self.hdr = own_flag, hdr
+
+    def ref(self, n, name):
+        n = strip(n)
+        return n.get("kind") == "DeclRefExpr" and n.get("referencedDecl", {}).get("name") == name
+
+    def call(self, n):
+        """-> ("line"|"hdr", function, args) for base-class / headers_ member calls"""
+        n = strip(n)
+        if n.get("kind") != "CXXMemberCallExpr":
+            return None
+        callee = kids(n)[0]
+        if callee.get("kind") != "MemberExpr":
+            return None
+        base = strip(kids(callee)[0])
+        if base.get("kind") == "CXXThisExpr":
+            return "line", callee.get("name"), kids(n)[1:]
+        if base.get("kind") == "MemberExpr" and base.get("name") == self.hdr and strip(kids(base)[0]).get("kind") == "CXXThisExpr":
+            return "hdr", callee.get("name"), kids(n)[1:]
+        return None
+
+    def mexp(self, n):
+        n = strip(n)
+        k = n.get("kind")
+        if k == "CXXBoolLiteralExpr":
+            return "(MConst %s)" % ("true" if n.get("value") else "false")
+        if k == "UnaryOperator" and n.get("opcode") == "!":
+            return "(MNot %s)" % self.mexp(kids(n)[0])
+        if k == "BinaryOperator" and n.get("opcode") in ("&&", "||"):
+            a, b = kids(n)
+            return "(%s %s %s)" % ("MAnd" if n["opcode"] == "&&" else "MOr", self.mexp(a), self.mexp(b))
+        c = self.call(n)
+        if c:
+            who, f, args = c
+            if f == "valid" and not args:
+                return "MLineValid" if who == "line" else "MHdrValid"
+            if f == "parse" and len(args) == 2 and self.ref(args[0], "iter") and self.ref(args[1], "end"):
+                return "MLineParse" if who == "line" else "MHdrParse"
+            raise Untranslatable("call of %s in a message's parse" % f)
+        if k == "MemberExpr" and n.get("name") == self.own_flag and strip(kids(n)[0]).get("kind") == "CXXThisExpr":
+            return "MFlag"
+        raise Untranslatable("expression in a message's parse: " + str(k))
+
+    def seq(self, l):
+        l = [x for x in l if x != "MSkip"]
+        if not l:
+            return "MSkip"
+        out = l[-1]
+        for x in reversed(l[:-1]):
+            out = "(MSeq %s %s)" % (x, out)
+        return out
+
+    def mstmt(self, n):
+        k = n.get("kind")
+        if k == "CompoundStmt":
+            return self.seq([self.mstmt(c) for c in kids(n)])
+        if k == "NullStmt":
+            return "MSkip"
+        if k == "IfStmt":
+            ks = kids(n)
+            els = ks[2] if len(ks) > 2 else None
+            return "(MIf %s %s %s)" % (self.mexp(ks[0]), self.mstmt(ks[1]), self.mstmt(els) if els is not None else "MSkip")
+        if k == "ReturnStmt":
+            return "(MReturn %s)" % self.mexp(kids(n)[0])
+        if k == "BinaryOperator" and n.get("opcode") == "=":
+            lhs, rhs = kids(n)
+            l = strip(lhs)
+            if l.get("kind") == "MemberExpr" and l.get("name") == self.own_flag and strip(kids(l)[0]).get("kind") == "CXXThisExpr":
+                return "(MSet %s)" % self.mexp(rhs)
+            raise Untranslatable("assignment in a message's parse")
+        raise Untranslatable("statement in a message's parse: " + str(k))
+
+
+def translate_message(header, cls, inst):
+    with tempfile.TemporaryDirectory() as d:
+        tu = os.path.join(d, "tu.cpp")
+        with open(tu, "w") as f:
+            f.write('#include "%s"\n' % header)
+            f.write("template class %s;\n" % inst)
+            f.write("template bool %s::parse<const char*>(const char*&, const char*);\n" % inst)
+        p = subprocess.run(["clang++", "-std=c++17", "-I" + os.path.join(REPO, "include"), "-fsyntax-only",
+                            "-Xclang", "-ast-dump=json", "-Xclang", "-ast-dump-filter=" + cls, tu],
+                           stdout=subprocess.PIPE, stderr=subprocess.PIPE, text=True)
+        if p.returncode != 0:
+            raise Untranslatable("clang: " + p.stderr[-400:])
+        docs = load_docs(p.stdout)
+    for dd in docs:
+        for n in walk(dd):
+            if n.get("kind") == "ClassTemplateSpecializationDecl" and n.get("name") == cls:
+                pr = [m for m in walk(n) if m.get("kind") == "CXXMethodDecl" and m.get("name") == "parse" and any(c.get("kind") == "CompoundStmt" for c in kids(m))
+                      and any(c.get("kind") == "TemplateArgument" for c in (m.get("inner") or []))]
+                if pr:
+                    return MTr().mstmt([c for c in kids(pr[0]) if c.get("kind") == "CompoundStmt"][0])
+    raise Untranslatable("%s::parse: no instantiated body found" % cls)
+
+
+def translate_headers_valid():
+    """message_headers::valid() as an M_Hdr.hexp"""
+    inst = "via::http::message_headers<100, 65534, 1024, 8, false>"
+    with tempfile.TemporaryDirectory() as d:
+        tu = os.path.join(d, "tu.cpp")
+        with open(tu, "w") as f:
+            f.write('#include "via/http/headers.hpp"\n')
+            f.write("template class %s;\n" % inst)
+        p = subprocess.run(["clang++", "-std=c++17", "-I" + os.path.join(REPO, "include"), "-fsyntax-only",
+                            "-Xclang", "-ast-dump=json", "-Xclang", "-ast-dump-filter=message_headers", tu],
+                           stdout=subprocess.PIPE, stderr=subprocess.PIPE, text=True)
+        if p.returncode != 0:
+            raise Untranslatable("clang: " + p.stderr[-400:])
+        docs = load_docs(p.stdout)
+    for dd in docs:
+        for n in walk(dd):
+            if n.get("kind") == "ClassTemplateSpecializationDecl" and n.get("name") == "message_headers":
+                ms = [m for m in kids(n) if m.get("kind") == "CXXMethodDecl" and m.get("name") == "valid" and any(c.get("kind") == "CompoundStmt" for c in kids(m))]
+                if len(ms) == 1:
+                    rs = kids([c for c in kids(ms[0]) if c.get("kind") == "CompoundStmt"][0])
+                    if len(rs) == 1 and rs[0].get("kind") == "ReturnStmt":
+                        return HTr().hexp(kids(rs[0])[0])
+    raise Untranslatable("message_headers::valid")
+
+
 CLASSES = [
     dict(name="rl", cls="request_line", header="via/http/request.hpp", enum="Request", state="state_", param="c",
          strs=["method_", "uri_"], nums=["ws_count_", "major_version_", "minor_version_", "valid_", "fail_"],
-         limits=["MAX_URI_LENGTH", "MAX_METHOD_LENGTH", "MAX_WHITESPACE_CHARS"],
+         limits=["MAX_URI_LENGTH", "MAX_METHOD_LENGTH", "MAX_WHITESPACE_CHARS"], accessors=["valid"],
          inst={"lax": "via::http::request_line<8190, 8, 8, false>", "strict": "via::http::request_line<8190, 8, 8, true>"}),
     dict(name="sl", cls="response_line", header="via/http/response.hpp", enum="Response", state="state_", param="c",
          strs=["reason_phrase_"], nums=["ws_count_", "major_version_", "minor_version_", "status_", "status_read_", "valid_", "fail_"],
-         limits=["MAX_STATUS_NUMBER", "MAX_REASON_LENGTH", "MAX_WHITESPACE_CHARS"],
+         limits=["MAX_STATUS_NUMBER", "MAX_REASON_LENGTH", "MAX_WHITESPACE_CHARS"], accessors=["valid"],
          inst={"lax": "via::http::response_line<65534, 65534, 254, false>", "strict": "via::http::response_line<65534, 65534, 254, true>"}),
     dict(name="fl", cls="field_line", header="via/http/headers.hpp", enum="Header", state="state_", param="c",
          strs=["name_", "value_"], nums=["length_", "ws_count_", "fail_"],
@@ -647,7 +772,7 @@ def translate_class(cfg):
                 if len(rs) != 1 or rs[0].get("kind") != "ReturnStmt":
                     raise Untranslatable("%s::%s is not a single return" % (cfg["cls"], an))
                 e = kids(rs[0])[0]
-                if an in ("started", "fail"):
+                if an in ("started", "fail", "valid"):
                     acc[an] = tr0.bexp(e)
                 elif an == "length":
                     acc[an] = tr0.nexp(e)
@@ -664,7 +789,7 @@ def translate_class(cfg):
 
 def main(dest):
     lines = ["(* Gen_Parse.v — GENERATED by translate/parse.py from the headers under include/via/http: do not edit. *)",
-             "From Via Require Import M_Char M_Parse M_Imp M_Loop M_Hdr.", "From Coq Require Import List NArith.", "Import ListNotations.", "Local Open Scope N_scope.", ""]
+             "From Via Require Import M_Char M_Parse M_Imp M_Loop M_Hdr M_Msg.", "From Coq Require Import List NArith.", "Import ListNotations.", "Local Open Scope N_scope.", ""]
     for cfg in CLASSES:
         enum_index, progs = translate_class(cfg)
         names = sorted(enum_index, key=enum_index.get)
@@ -678,18 +803,23 @@ def main(dest):
         lines.append("Definition %s_parse_src : lstmt :=\n  %s." % (cfg["name"], progs["parse"]))
         if "acc" in progs:
             a = progs["acc"]
-            lines.append("(* %s: started(), fail(), length(), name(), value() *)" % cfg["cls"])
-            lines.append("Definition %s_started_src : bexp := %s." % (cfg["name"], a["started"]))
-            lines.append("Definition %s_fail_src : bexp := %s." % (cfg["name"], a["fail"]))
-            lines.append("Definition %s_length_src : nexp := %s." % (cfg["name"], a["length"]))
-            lines.append("Definition %s_name_src : nat := %s." % (cfg["name"], a["name"]))
-            lines.append("Definition %s_value_src : nat := %s." % (cfg["name"], a["value"]))
+            kinds = {"started": "bexp", "fail": "bexp", "valid": "bexp", "length": "nexp", "name": "nat", "value": "nat"}
+            lines.append("(* %s: %s *)" % (cfg["cls"], ", ".join(x + "()" for x in cfg["accessors"])))
+            for an in cfg["accessors"]:
+                lines.append("Definition %s_%s_src : %s := %s." % (cfg["name"], an, kinds[an], a[an]))
         lines.append("")
     lines.append("(* message_headers::parse(iter, end) *)")
     lines.append("Definition hd_parse_src : hstmt :=\n  %s." % translate_headers())
+    lines.append("(* message_headers::valid() *)")
+    lines.append("Definition hd_valid_src : hexp := %s." % translate_headers_valid())
+    lines.append("(* rx_request::parse(iter, end), rx_response::parse(iter, end) *)")
+    lines.append("Definition rq_parse_src : mstmt :=\n  %s." % translate_message("via/http/request.hpp", "rx_request", "via::http::rx_request<8190, 8, 100, 65534, 1024, 8, false>"))
+    lines.append("Definition rs_parse_src : mstmt :=\n  %s." % translate_message("via/http/response.hpp", "rx_response", "via::http::rx_response<65534, 65534, 100, 65534, 1024, 8, false>"))
     txt = "\n".join(lines) + "\n"
-    with open(dest, "w") as f:
-        f.write(txt)
+    # unchanged output keeps its time stamp: make then has nothing to rebuild
+    if not os.path.exists(dest) or open(dest).read() != txt:
+        with open(dest, "w") as f:
+            f.write(txt)
 
 
 if __name__ == "__main__":
